@@ -64,8 +64,12 @@ class Builder:
         if roles:
             from hdl21.role import RoleSet, Role
             from enum import Enum
-            E = Enum(name + "Roles", {r: r for r in roles})
-            b.roles = RoleSet.from_enum(E)
+            if bd.get("anonroles"):
+                # roles created without a name (h.Roles(n)), collected under their attribute names as the bundle decorator does
+                b.roles = RoleSet.from_dict({r: Role() for r in roles})
+            else:
+                E = Enum(name + "Roles", {r: r for r in roles})
+                b.roles = RoleSet.from_enum(E)
         for s in bd["sigs"]:
             kw = {}
             if s.get("vis", "internal") == "port":
@@ -250,6 +254,17 @@ class Builder:
 
     def build(self):
         return self.module(self.D["top"])
+
+
+def make_namesake(h, name):
+    """A module called `name` made HERE, i.e. with the same qualified name as the builder's modules of that name, but another module: its bundle port
+    `bp` is of another bundle type (used by C07: elaborating a namesake in between may not disturb the first module)."""
+    other = h.Bundle(name="Bother")
+    other.y, other.x, other.zz = h.Signal(), h.Signal(width=2), h.Signal()
+    twin = h.Module(name=name)
+    twin.bp = other(port=True)
+    twin.p = h.Port()
+    return twin
 
 
 def build(h, D, style="proc"):
